@@ -59,6 +59,14 @@ def all_props():
     return sorted(registry.PROPERTIES)
 
 
+_USED_WORK = set()
+
+
+def _cleanup_work():
+    for w in sorted(_USED_WORK):
+        shutil.rmtree(w, ignore_errors=True)
+
+
 def do_mutant(m, slot):
     base = os.path.join(tempfile.gettempdir(), "splint_mut")
     d = os.path.join(base, "m%d" % slot)
@@ -100,7 +108,9 @@ def _do_mutant_locked(m, slot, d):
             if s.count(m["old"]) != 1:
                 return {"name": m["name"], "status": "skipped", "why": "anchor text found %d times" % s.count(m["old"])}
             open(p, "w").write(s.replace(m["old"], m["new"]))
-        work = os.path.join(VERIF, ".work", "mut%d" % slot)
+        # facts and cargo target directory of the checks on the scratch copy: outside /verif and /repo, removed when the sweep ends
+        work = os.path.join(tempfile.gettempdir(), "splint_mut", "w%d" % slot)
+        _USED_WORK.add(work)
         props = m.get("props") or all_props()
         res = run_checks(d, work, props)
         flagged = sorted(p for p, v in res.items() if v["rc"] == 1)
@@ -177,6 +187,8 @@ def main():
         with locks[i % a.jobs]:
             return do_mutant(m, i % a.jobs)
 
+    import atexit
+    atexit.register(_cleanup_work)
     with ThreadPoolExecutor(max_workers=a.jobs) as ex:
         for r in ex.map(guarded, list(enumerate(ms))):
             results.append(r)
